@@ -2,7 +2,7 @@
 import os
 import shutil
 
-from .. import core, dgen, evalgen, gen, hist
+from .. import core, dgen, evalgen, gen, hist, ynodes
 from ..core import F, veq
 from . import c03
 
@@ -38,6 +38,8 @@ def wild_tree(rng, depth):
         return m
     return [wild_tree(rng, depth - 1) for _ in range(rng.below(4))]
 
+
+YAML_SELF = ["a: &a [*a]\n", "a: &a {b: *a}\n", "a: &a {<<: *a, c: 1}\n", "a: &a\n  b: &b\n    - *a\n    - *b\n", "x: 1\n---\na: &a [[*a]]\n"]
 
 CYCLES = [
     {"a": "$merge:b", "b": "$merge:a"},
@@ -164,6 +166,14 @@ def run(ctx):
         jobs.append(("struct", [[cyc]], rng.fork("cyc")))
     for lay in c03.link_corpus():
         jobs.append(("graph", lay, rng.fork("link")))
+    # structurally generated YAML with anchors, aliases and merge keys, a third of it with an alias to an enclosing anchor
+    # (a: &a [*a] - yaml.v3's node tree is then cyclic), plus the three smallest such documents
+    for text in YAML_SELF:
+        jobs.append(("yamltext", text, rng.fork("ys")))
+    for i in range(n // 10):
+        r = rng.fork("y%d" % i)
+        tree, text = ynodes.document(r, bad=(i % 4 == 3), selfref=(i % 3 == 0))
+        jobs.append(("yamltext", text, r))
 
     def one(i):
         kind, payload, r = jobs[i]
@@ -192,6 +202,9 @@ def run(ctx):
             model_case = c03.model_case({"files": files, "opts": {"inputs": [top], "f": "json", "P": False}}, fmts)
             runs = [("bkl", ["-f", "json", top]), ("bklr", [top]), ("bkld", [names[0] + "." + [k for k in files][0].rsplit(".", 1)[1], top]),
                     ("bkli", [[k for k in files][0], top])]
+        elif kind == "yamltext":
+            open(os.path.join(d, "x.yaml"), "w").write(payload)
+            runs = [("bkl", ["-f", "json", "x.yaml"]), ("bklr", ["x.yaml"]), ("bkld", ["x.yaml", "x.yaml"]), ("bkli", ["x.yaml", "x.yaml"])]
         elif kind == "bytes":
             ext = r.pick(["json", "toml"])
             open(os.path.join(d, "x." + ext), "wb").write(payload)
@@ -214,7 +227,7 @@ def run(ctx):
     mcases = [(i, r[2]) for i, r in enumerate(results) if r[2] is not None]
     mres = dict(zip([i for i, _ in mcases], ctx.model(c03.fill_tables(ctx, [c for _, c in mcases])))) if mcases else {}
     seen, nt = set(), 0
-    dist = {"struct": 0, "bytes": 0, "graph": 0, "bkl_ok": 0, "bkl_err": 0, "model_compared": 0, "model_circular": 0}
+    dist = {"struct": 0, "bytes": 0, "graph": 0, "yamltext": 0, "bkl_ok": 0, "bkl_err": 0, "model_compared": 0, "model_circular": 0}
     for i, ((kind, payload, r), (problems, first, mc)) in enumerate(zip(jobs, results)):
         dist[kind] += 1
         dist["bkl_ok" if first[0] == 0 else "bkl_err"] += 1
@@ -234,13 +247,13 @@ def run(ctx):
                             why = "bkl output differs from the model: %s vs %s" % (hist.short(got), hist.short(m[1][1]))
                     except Exception:
                         why = "bkl output is not JSON"
-        h = core.vhash(payload if kind == "struct" else (payload.hex() if kind == "bytes" else sorted(payload["files"])))
+        h = core.vhash(payload if kind in ("struct", "yamltext") else (payload.hex() if kind == "bytes" else sorted(payload["files"])))
         if h not in seen:
             seen.add(h)
             nt += 1
         if why and len(ctx.violations) < 5:
             ctx.violations.append({"name": "case-%s" % h, "property": "C08", "kind": "failing-input", "why": why, "input_kind": kind,
-                                   "input": core.to_jsonable(payload) if kind == "struct" else (payload.hex() if kind == "bytes" else
+                                   "input": core.to_jsonable(payload) if kind in ("struct", "yamltext") else (payload.hex() if kind == "bytes" else
                                             {a: [b[0], core.to_jsonable(b[1])] for a, b in payload["files"].items()}),
                                    "opts": payload["opts"] if kind == "graph" else None, "class": "c08-robustness"})
     return {"evaluations": len(jobs) * 4, "distinct_nontrivial": nt, "rule": RULE,
